@@ -6,7 +6,68 @@ NOTE = ("Trusted: Coq 8.16.1 kernel (+vm_compute; no native_compute), no axioms 
         "extraction via ExtrOcamlBasic + ocaml/driver.ml (cross-checked by vm_compute in cases.v on every run), the "
         "correspondence harness under /verif/harness (generators, renaming, float->rational conversion, exception->enum), "
         "third-party libraries modelled by contract. ")
+TECH = 'Coq proof of hand-written Gallina model + differential correspondence check (extracted OCaml model vs real code)'
 CHECKS = {
+ 'C01': dict(
+   text="Theorems (Coq, for every decision procedure returning one child of the asked parent per cell, every valid taxonomy incl. single-child chains "
+        "and single-node levels, every cell list and generator state): c01_path_consistent (a successful run_type_assignment yields one row per cell in "
+        "cell order and every row is a root-to-leaf path of the tree) and c01_total (the run does succeed). Tie: (i) real run_type_assignment with "
+        "_run_type_assignment replaced by a recorded-choice oracle on every tree shape up to 4 levels / 4-6 leaves + random trees vs the extracted model; "
+        "(ii) real run_mapping pipeline runs (flatten, drop_level, chunk sizes, 1-4 workers) with spec_routing evaluated on the observed records.",
+   note="Chunk dispatch/gather and re_order_blob are exercised by the pipeline runs but not yet covered by a theorem (C04); HDF5/anndata reading of obs "
+        "and the JSON writer are not modelled. F1 (single top node -> KeyError) was repaired in /repo (df833cb).",
+   technique=TECH, ref="DESIGN.md section 7 C01"),
+ 'C02': dict(
+   text="Theorems: c02_vote_is_argmax (each bootstrap iteration adds exactly one vote, to the child owning a leaf whose exact Pearson correlation over "
+        "the drawn marker subset is maximal, first index on ties), c02_key_order, c02_one_vote_per_iteration, c02_winner_plurality (the winner has "
+        "the plurality for every sorter that is a permutation with non-increasing votes, i.e. for numpy's unspecified tie order). Tie: choose_node on "
+        "random dyadic matrices with a recording generator, and real run_mapping runs in which every (cell, node, iteration) vote is recomputed by the "
+        "extracted model from the input files and the recorded subsets; winners, vote counts, runner-up multisets exact, correlations within 1e-9.",
+   note="Float rounding inside np.dot/np.mean is not modelled (decisions compared, near ties with relative margin <= 1e-9 skipped and counted); "
+        "rng.choice itself is not modelled (the recorded draws are checked to be duplicate-free and of the right size); dyadic bootstrap factors.",
+   technique=TECH, ref="DESIGN.md section 7 C02"),
+ 'C03': dict(
+   text="Theorems: c03_probability_range (1 <= votes <= iterations), c03_runner_up_shape, c03_sum_at_most_one, c03_corr_range (-1 <= r <= 1 by "
+        "Cauchy-Schwarz over exact rationals), c03_aggregate_is_running_product, c03_single_child_correlation, c03_single_child_record. Tie: every "
+        "record of real run_mapping runs (iteration count 1, zero runners-up, more runners-up than siblings, single-child chains, flatten / dropped "
+        "levels) checked against the arithmetic contract through the extracted check_choice on recomputed votes.",
+   note="The [-1,1] clause is checked on the implementation with a 1e-9 allowance (real outputs contain 1.0000000000000002), the model proves it "
+        "exactly; aggregate probability compared with the float running product within 1e-12.",
+   technique=TECH, ref="DESIGN.md section 7 C03"),
+ 'C08': dict(
+   text="Theorems (for every tree, marker table, query/reference gene lists, min_markers): c08_used_equals_spec (genes used for a parent with >= 2 children "
+        "= own list intersected with the query if large enough, else the minimal union with the nearest ancestors / root, computed from the ORIGINAL table: "
+        "ancestors are unpatched when consulted), c08_fallback_minimal, c08_fallback_bounds, c08_reported_equals_used, c08_pairing_by_name, "
+        "c08_pairing_columns, c08_used_in_query_and_reference, c08_single_child_needs_none (+ _refuted witness = finding F7), c08_errors_root, "
+        "c08_errors_unknown_to_reference, c08_errors_no_shared_marker, c08_flatten_unions, c08_flatten_tree. Tie: validate_marker_lookup + "
+        "create_marker_cache_from_specified_markers + serialize_markers on generated (tree, table, gene orders, min_markers 0..6), HDF5 cache re-read, "
+        "error kinds through an enum, vs the extracted model.",
+   note="Names contain no '/'; 'metadata'/'log' keys of the table ignored; F7 is a known finding (entry of a parent that needs no markers aborts cache creation).",
+   technique=TECH, ref="DESIGN.md section 7 C08"),
+ 'C15': dict(
+   text="Theorems: c15_hdf5_roundtrip (hdf5_to_blob (blob_to_hdf5 b) = b for every well-formed blob with per-level uniform directly_assigned flags) with "
+        "c15_roundtrip_without_uniform_flags_refuted (necessity), c15_csv_rows, c15_four_decimals (+ c15_csv_confidence_four_decimals_refuted), "
+        "c15_query_order, c15_tree_reconstructs. Tie: generated result blobs (depth 1-5, names with commas/quotes/newlines, 0..k runners-up, inferred "
+        "levels, malformed stream) through the real blob_to_csv / blob_to_hdf5 / hdf5_to_blob / re_order_blob / to_str-from_str vs the extracted model.",
+   note="pandas CSV quoting and %.4f, gzip, h5py and json float printing are trusted; floats finite; F15 (column decided by substring of the level name) is a known finding.",
+   technique=TECH, ref="DESIGN.md section 7 C15"),
+ 'C18': dict(
+   text="Theorems: c18_centroid_partial (a query row equal to leaf l's mean profile and non-constant on every drawn subset gets correlation 1 with l, every "
+        "leaf reaching correlation 1 is perfectly correlated, so under the property's proviso every iteration votes for l's ancestor: share 1, average "
+        "correlation 1, for every bootstrap factor) and c18_flat_subset_refuted (finding F6: a subset on which the centroid is constant). Tie: the four real "
+        "stages chained (statistics -> reference markers -> query markers -> mapping) on generated separable references, centroid queries in shuffled gene "
+        "order, factors {0.25,0.5,0.9,1}, proviso evaluated from the recorded subsets.",
+   note="Partial: the full statement is refuted by the faithful model for flat subsets (F6, known finding, documented convention of distance_utils); "
+        "F12 (taxonomy with fewer than two leaves: find_markers raises UnboundLocalError) known.",
+   technique=TECH, ref="DESIGN.md section 7 C18"),
+ 'C20': dict(
+   text="Theorems: c20_sinks_sanitised (under cloud_safe every string reaching config/log/log-file sinks is an image of sanitize), c20_word_sound_partial "
+        "(every blank-delimited word whose quote-stripped form is or lies below an existing path is replaced by text without a rooted existing path), "
+        "c20_replacement_text, c20_exposed_iff, c20_unexposed_text_unchanged; refutations of the full statement with witnesses replayed on the code: "
+        "c20_no_abs_path_refuted / c20_glued_prefixes_refuted (F10), c20_top_level_entry_refuted (F14), c20_sibling_of_package_raises (F13). Tie: "
+        "sanitize_paths on generated strings over a real generated directory tree vs the extracted model, plus a substring scan of the output for existing absolute paths.",
+   note="Partial: the no-substring statement is refuted (F10, F13, F14 known findings); third-party message contents are not modelled; names without white space.",
+   technique=TECH, ref="DESIGN.md section 7 C20"),
  'C16': dict(
    text="Theorems (Coq, for all inputs): the integer type chosen contains the rounded bounds and is the first candidate that does; "
         "every value between min and max fits after round-half-even; rounding moves a value by <= 1/2; identifier rewriting "
